@@ -339,48 +339,43 @@ func RankGens(base []int64, lines []string) []string {
 	return out
 }
 
-var anyGenRe = regexp.MustCompile(`#g?(-?\d+)`)
-var objGenRe = regexp.MustCompile(`b=(\S+) name=(\S+) [^#]*gen=#g?(-?\d+)`)
+var namedGenRe = regexp.MustCompile(`name=(\S+) [^#|;]*gen=#g?(-?\d+)`)
 
 // RankGensPerObject replaces every generation token (#g<raw> of the implementation, #<n> of the
-// Model) by its rank among the generations of the same object occurring in the lines.  Which object
-// a generation belongs to is read off the object resources in the lines (a generation names one
-// version of one object); a token whose generation occurs in no resource is ranked among its like.
-// Generations of different objects are deliberately not compared: the properties order the versions
-// of one object, not the instants at which unrelated objects were written.
+// Model) by its rank among the generations reported for the same object name in the lines.  Every
+// token stands in a resource or media line that names its object.  Generations of different objects
+// are deliberately not compared: the properties order the versions of one object, not the instants
+// at which unrelated objects were written (and two objects may well carry the same number).
 func RankGensPerObject(lines []string) []string {
-	owner := map[int64]string{}
+	per := map[string]map[int64]bool{}
 	for _, l := range lines {
-		for _, m := range objGenRe.FindAllStringSubmatch(l, -1) {
-			g, _ := strconv.ParseInt(m[3], 10, 64)
-			if _, ok := owner[g]; !ok {
-				owner[g] = m[1] + "/" + m[2]
+		for _, m := range namedGenRe.FindAllStringSubmatch(l, -1) {
+			g, _ := strconv.ParseInt(m[2], 10, 64)
+			if per[m[1]] == nil {
+				per[m[1]] = map[int64]bool{}
 			}
+			per[m[1]][g] = true
 		}
 	}
-	per := map[string][]int64{}
-	seen := map[int64]bool{}
-	for _, l := range lines {
-		for _, m := range anyGenRe.FindAllStringSubmatch(l, -1) {
-			g, _ := strconv.ParseInt(m[1], 10, 64)
-			if !seen[g] {
-				seen[g] = true
-				per[owner[g]] = append(per[owner[g]], g)
-			}
+	rank := map[string]map[int64]int{}
+	for n, set := range per {
+		var gs []int64
+		for g := range set {
+			gs = append(gs, g)
 		}
-	}
-	rank := map[int64]int{}
-	for _, gs := range per {
 		sort.Slice(gs, func(i, j int) bool { return gs[i] < gs[j] })
+		rank[n] = map[int64]int{}
 		for i, g := range gs {
-			rank[g] = i + 1
+			rank[n][g] = i + 1
 		}
 	}
 	out := make([]string, len(lines))
 	for i, l := range lines {
-		out[i] = anyGenRe.ReplaceAllStringFunc(l, func(tok string) string {
-			g, _ := strconv.ParseInt(strings.TrimPrefix(tok[1:], "g"), 10, 64)
-			return fmt.Sprintf("#%d", rank[g])
+		out[i] = namedGenRe.ReplaceAllStringFunc(l, func(tok string) string {
+			m := namedGenRe.FindStringSubmatch(tok)
+			g, _ := strconv.ParseInt(m[2], 10, 64)
+			k := strings.LastIndex(tok, "#")
+			return tok[:k] + fmt.Sprintf("#%d", rank[m[1]][g])
 		})
 	}
 	return out
@@ -679,7 +674,7 @@ func (e *Env) Exec(cop core.Op) (resp string) {
 			return statusLine(rec.Code)
 		}
 		g, _ := strconv.ParseInt(rec.Header().Get("X-Goog-Generation"), 10, 64)
-		return fmt.Sprintf("media ct=%s gen=#%s mg=%s data=%s", hs(rec.Header().Get("Content-Type")), e.rankStr(g), rec.Header().Get("X-Goog-Metageneration"), hx(rec.Body.Bytes()))
+		return fmt.Sprintf("media name=%s ct=%s gen=#%s mg=%s data=%s", hs(o.N), hs(rec.Header().Get("Content-Type")), e.rankStr(g), rec.Header().Get("X-Goog-Metageneration"), hx(rec.Body.Bytes()))
 	case "patch":
 		q := e.condQuery(o.B, o.N, o.Conds)
 		q.Set("alt", "json")
